@@ -1236,6 +1236,9 @@ fn probe_port(model: &mut Model, m128: bool, alias: bool, ops: &[(char, u8)], mu
         }
     }
     let ans = model.ask_many(&lines);
+    // a read the spec accepts but the model does not (e.g. unimplemented bits read as 0) does not end the search: a
+    // later read of the same history may contradict the spec
+    let mut pending: Option<Disagreement> = None;
     for (k, got, li) in reads {
         let t: Vec<&str> = ans[li].split(' ').collect();
         if let Some(rp) = rep.as_deref_mut() {
@@ -1250,9 +1253,12 @@ fn probe_port(model: &mut Model, m128: bool, alias: bool, ops: &[(char, u8)], mu
                 format!("{} (the value last written to the selected register, register numbers modulo 16)", t[1]),
             ));
         }
-        if format!("{:02x}", got) != t[0] {
-            return Some(dis(Kind::ModelMismatch, "C18/readback.model", format!("op #{}: differs from the Lean model", k), format!("{:02x}", got), t[0]));
+        if format!("{:02x}", got) != t[0] && pending.is_none() {
+            pending = Some(dis(Kind::ModelMismatch, "C18/readback.model", format!("op #{}: differs from the Lean model", k), format!("{:02x}", got), t[0]));
         }
+    }
+    if pending.is_some() {
+        return pending;
     }
     if let Some(rp) = rep {
         rp.class(format!("port {}K alias={} len-class={}", if m128 { 128 } else { 48 }, alias as u8, ops.len() / 64));
